@@ -279,6 +279,9 @@ func (m *MsgData) Deserialize(b []byte) error {
 		return io.EOF
 	}
 
+	// A message without payload must not keep the payload of a message that
+	// was deserialized into the same MsgData before.
+	m.Payload = nil
 	if payloadLen > 0 {
 		m.Payload = b[baseLength : baseLength+int(payloadLen)]
 	}
